@@ -269,6 +269,151 @@ def body_flow(ctx, framing="chunked", compressed=False, corrupt=False, chunkings
     loop.run_ready()
     return True, tag, None
 
+# ---- the real codecs on concrete bodies: decoded bytes equal the reference decoding -----------------
+PLAIN = (b"hello world, " * 40) + bytes(range(256)) + (b"\x00" * 300)
+
+
+def _encoded(kind):
+    import gzip
+    import zlib
+
+    if kind == "gzip":
+        return gzip.compress(PLAIN, mtime=0), "gzip"
+    if kind == "gzip-2-members":
+        h = len(PLAIN) // 2
+        return gzip.compress(PLAIN[:h], mtime=0) + gzip.compress(PLAIN[h:], mtime=0), "gzip"
+    if kind == "deflate-zlib":
+        return zlib.compress(PLAIN), "deflate"
+    if kind == "deflate-raw":
+        c = zlib.compressobj(wbits=-15)
+        return c.compress(PLAIN) + c.flush(), "deflate"
+    raise ValueError(kind)
+
+
+def real_codec(ctx, kind="gzip", corrupt=False):
+    """zlib itself runs (on concrete bytes): for solver-chosen framing, chunk size, segmentation, read
+    buffer limit and reading pattern the caller gets exactly the reference decoding; with one body
+    byte flipped (gzip: the CRC notices) the read ends in a payload error, never in a complete body."""
+    import logging
+
+    import aiohttp
+    from aiohttp.client_proto import ResponseHandler
+    from aiohttp.connector import BaseConnector
+
+    logging.disable(logging.CRITICAL)
+    loop = install(VLoop())
+    # (another job in this worker process may have put the contract stub in place)
+    from aiohttp import compression_utils, http_parser as _hp
+
+    _hp.ZLibDecompressor = compression_utils.ZLibDecompressor
+    enc_body, token = _encoded(kind)
+    if corrupt:
+        pos = ctx.pick("flip_at", [12, len(enc_body) // 2, len(enc_body) - 12])
+        enc_body = enc_body[:pos] + bytes([enc_body[pos] ^ 0x5A]) + enc_body[pos + 1:]
+    framing = ctx.pick("framing", ["length", "chunked-7", "chunked-64", "chunked-whole"])
+    hdr = b"HTTP/1.1 200 OK\r\nContent-Encoding: " + token.encode() + b"\r\n"
+    if framing == "length":
+        wire = enc_body
+        hdr += b"Content-Length: %d\r\n\r\n" % len(enc_body)
+    else:
+        n = {"chunked-7": 7, "chunked-64": 64, "chunked-whole": len(enc_body)}[framing]
+        wire = b"".join(b"%x\r\n" % len(enc_body[i:i + n]) + enc_body[i:i + n] + b"\r\n" for i in range(0, len(enc_body), n))
+        wire += b"0\r\n\r\n"
+        hdr += b"Transfer-Encoding: chunked\r\n\r\n"
+    limit = ctx.pick("read_bufsize", [4, 64, 65536])
+    holder = {}
+
+    class Conn(BaseConnector):
+        async def _create_connection(self, req, traces, timeout):
+            p = ResponseHandler(loop)
+            tr = MemTransport()
+            p.connection_made(tr)
+            holder["proto"], holder["tr"] = p, tr
+            return p
+
+    async def mk():
+        return aiohttp.ClientSession(connector=Conn(), read_bufsize=limit, cookie_jar=aiohttp.DummyCookieJar())
+
+    session = loop.run_until_complete(mk())
+    state = {"resp": None, "got": b"", "err": None}
+
+    async def go():
+        state["resp"] = await session.get("http://h/")
+
+    t = asyncio.Task(go(), loop=loop)
+    loop.run_ready()
+    proto, tr = holder["proto"], holder["tr"]
+    proto.data_received(hdr)
+    loop.run_ready()
+    if state["resp"] is None:
+        return False, "no-response", {"key": "response-not-started"}
+    content = state["resp"].content
+    marks = sorted({0, 1, 2, 3, 4, 9, 10, 11, 12, 18, len(wire) // 2, len(wire) - 9, len(wire) - 8, len(wire) - 5,
+                    len(wire) - 2, len(wire) - 1, len(wire)})
+    marks = [m for m in marks if 0 <= m <= len(wire)]
+    c0 = ctx.pick("cut0", marks)
+    c1 = ctx.pick("cut1", [m for m in marks if m >= c0])
+    queue = [x for x in (wire[:c0], wire[c0:c1], wire[c1:]) if x]
+    pattern = ctx.pick("reader", ["read-all", "read-17", "readany", "iter-chunked-5"])
+
+    async def consume():
+        try:
+            if pattern == "read-all":
+                state["got"] += await content.read()
+            elif pattern == "read-17":
+                while True:
+                    d = await content.read(17)
+                    if not d:
+                        break
+                    state["got"] += d
+            elif pattern == "readany":
+                while True:
+                    d = await content.readany()
+                    if not d:
+                        break
+                    state["got"] += d
+            else:
+                async for d in content.iter_chunked(5):
+                    state["got"] += d
+        except Exception as e:  # noqa: BLE001
+            state["err"] = type(e).__name__
+
+    fin = asyncio.Task(consume(), loop=loop)
+    loop.run_ready()
+    for _ in range(20000):
+        if fin.done():
+            break
+        if queue and not tr.paused and not tr.closed:
+            proto.data_received(queue.pop(0))
+            loop.run_ready()
+            continue
+        loop.run_ready()
+        if fin.done():
+            break
+        if not queue or tr.paused:
+            break
+    info = {"kind": kind, "framing": framing, "limit": limit, "cuts": [c0, c1], "reader": pattern, "corrupt": corrupt}
+    if not fin.done():
+        fin.cancel()
+        loop.run_ready()
+        info.update(key="reader-starves-with-input-pending", queue=len(queue), paused=tr.paused, got=len(state["got"]))
+        return False, "inv:codec", info
+    tag = f"codec:{kind}:{'corrupt' if corrupt else 'ok'}"
+    if corrupt:
+        if state["err"] is None and state["got"] == PLAIN:
+            return True, tag + ":harmless-flip", None  # (a flipped bit in a header field zlib ignores)
+        if state["err"] is None:
+            info.update(key="corrupt-encoding-delivered-as-complete-body", got=len(state["got"]))
+            return False, "inv:codec", info
+        return True, tag, None
+    if state["err"] is not None:
+        info.update(key="valid-body-raises:" + state["err"])
+        return False, "inv:codec", info
+    if state["got"] != PLAIN:
+        info.update(key="decoded-bytes-differ-from-reference", got=len(state["got"]), want=len(PLAIN))
+        return False, "inv:codec", info
+    return True, tag, None
+
 
 def max_size(ctx):
     """server side: BaseRequest.read() never accumulates more than client_max_size"""
@@ -348,6 +493,9 @@ def jobs(tier):
                             limits=lim))
         out.append(dict(name=f"flow-length-{enc}", func="body_flow",
                         params=dict(framing="length", compressed=True, encoding=enc, light=quick), limits=lim))
+    for kind in ("gzip", "gzip-2-members", "deflate-zlib", "deflate-raw"):
+        out.append(dict(name=f"codec-{kind}", func="real_codec", params=dict(kind=kind), limits=lim))
+    out.append(dict(name="codec-gzip-corrupt", func="real_codec", params=dict(kind="gzip", corrupt=True), limits=lim))
     out.append(dict(name="client-max-size", func="max_size", params={}, limits=lim))
     return out
 
